@@ -104,6 +104,30 @@ def run_enum(ctx, tag, args):
     return json.load(open(out))
 
 
+def run_enum_env(ctx, tag, args, symlinked_prefix, cwd_at_prefix):
+    """the enumeration's light mode in another environment: interpreter started through a symlink to sys.prefix and/or with
+    the current directory at the prefix root (an ancestor of site-packages); nothing is written outside ctx.work"""
+    import sys
+    d = os.path.join(ctx.work, tag)
+    os.makedirs(d)
+    argp = os.path.join(d, "args.json")
+    with open(argp, "w") as f:
+        json.dump(dict(args, light=True), f)
+    out = os.path.join(d, "out.json")
+    prefix = os.path.dirname(os.path.dirname(common.PY))          # /venv
+    py = common.PY
+    if symlinked_prefix:
+        link = os.path.join(d, "prefixlink")
+        os.symlink(prefix, link)
+        py = os.path.join(link, "bin", os.path.basename(common.PY))
+        prefix = link
+    p = subprocess.run([py, "-m", "harness.filter_enum", argp, out], cwd=prefix if cwd_at_prefix else d, env=common.sub_env(),
+                       capture_output=True, text=True, timeout=120)
+    if p.returncode != 0:
+        raise RuntimeError(f"filter_enum (environment variant {tag}) failed: " + p.stderr[-1500:])
+    return json.load(open(out))["filter"]
+
+
 def e2e_plan(ctx, rnd):
     n = 8 if ctx.tier == "quick" else 60
     plan = []
@@ -130,12 +154,14 @@ def run(ctx):
     plan = e2e_plan(ctx, rnd)
     progs = []
     for i, mode, env, directed in plan:
-        prog = filter_e2e.gen_program(rnd, i, directed_trace_types=directed)
+        prog = filter_e2e.gen_program(rnd, i, directed_trace_types=directed, dict_shapes=(i % 3 == 0 and not directed))
         if env is not None:
             env = env.format(dir=f"e2e_{i}", main=f"main{i}")
         progs.append((prog, mode, env, random.Random(rnd.randrange(1 << 30))))
     with ThreadPoolExecutor(max_workers=max(2, common.NCPU // 2)) as ex:
         fut_enum = ex.submit(run_enum, ctx, "enum", args)
+        fut_env = [ex.submit(run_enum_env, ctx, tag, args, sp, cw) for tag, sp, cw in
+                   (("env_symlinked_prefix", True, False), ("env_cwd_at_prefix", False, True), ("env_both", True, True))]
         endings = [None, "raise", "exit3", "exit0"]
         fut_e2e = [ex.submit(filter_e2e.run_program, r, ctx.work, prog, mode, env,
                              endings[prog["idx"] % 4] if not any(f.name == "trace_types" for f in prog["fns"]) else None,
@@ -149,48 +175,63 @@ def run(ctx):
             dl += [("interleaved", "run-custom", True), ("module-first", "run-default", True), ("main-first", "run-custom", False)]
         fut_e2e += [ex.submit(filter_e2e.run_double_load, ctx.work, base + k, order, mode, absolute)
                     for k, (order, mode, absolute) in enumerate(dl)]
+        # two sessions in one process: monkeytype_config appears in between / MT_DB_PATH changes in between
+        base += len(dl)
+        kinds = ["config-appears", "db-path-changes"] * (1 if quick else 4)
+        fut_two = [ex.submit(filter_e2e.run_two_sessions, random.Random(rnd.randrange(1 << 30)), ctx.work,
+                             filter_e2e.gen_program(rnd, base + k, dict_shapes=(k % 2 == 1)), kind) for k, kind in enumerate(kinds)]
         enum = fut_enum.result()
+        env_runs = [f.result() for f in fut_env]
         e2e = [f.result() for f in fut_e2e]
+        for f in fut_two:
+            e2e += f.result()
 
     failures, mismatches = [], []
     flt = enum["filter"]
     header = HEADER % L(coq_path(r) for r in flt["roots"])
 
-    # ---- default_code_filter ----
-    fcases, direct_fail = [], []
-    for c in flt["cases"]:
-        if c["resolved"] == "error":
-            continue
-        if isinstance(c["impl"], str):      # raised something else / non-bool: no constructor for it, fail closed
-            direct_fail.append(c)
-            continue
-        fcases.append(c)
-    fterms = [fcase_term(c) for c in fcases]
-    outs = common.run_coq_shards(ctx.work, "c17f", header, fterms, "fcase", "bad (verdict_filter roots) 0 cases")
-    for i, code in common.parse_bad(outs):
-        c = fcases[i]
-        rec = {"stream": "default_code_filter", "co_filename": c["raw"], "resolved": c["resolved"], "env": c["env"],
-               "impl": c["impl"], "n_code_objects": c["n_code"], "kind": c["kind"], "note": c.get("note"),
-               "primed_by": c.get("primed_by"),
-               "lib_paths": flt["roots_str"], "verdict": code, "term": fterms[i]}
-        if code == 2:
-            rec["what"] = (f"default_code_filter answered {c['impl']} for {c['n_code']} code object(s) with co_filename="
-                           f"{c['raw']!r} (resolved {'/' + '/'.join((c['resolved'] or ['/'])[1:])!r}), MONKEYTYPE_TRACE_MODULES={c['env']!r}, "
-                           f"LIB_PATHS={flt['roots_str']}; the specification says {not c['impl'] if isinstance(c['impl'], bool) else 'a boolean'}"
-                           + (f" [{c['note']}]" if c.get("note") else ""))
-            # an answer that contradicts the path specification while another code object of the same file (or the
-            # same code object asked first) gets the right one: the lru_cache keyed on the code object
-            if c["kind"] == "env-history":
-                rec["env_history"] = c["env_history"]
+    # ---- default_code_filter (the main enumeration, then the same filter judged in other environments) ----
+    all_fcases, all_fterms = [], []
+    for run_name, frun in [("c17f", flt)] + [(f"c17v{k}", r) for k, r in enumerate(env_runs)]:
+        fheader = HEADER % L(coq_path(r) for r in frun["roots"])
+        fcases, direct_fail = [], []
+        for c in frun["cases"]:
+            if c["resolved"] == "error":
+                continue
+            if isinstance(c["impl"], str):      # raised something else / non-bool: no constructor for it, fail closed
+                direct_fail.append(c)
+                continue
+            fcases.append(c)
+        fterms = [fcase_term(c) for c in fcases]
+        outs = common.run_coq_shards(ctx.work, run_name, fheader, fterms, "fcase", "bad (verdict_filter roots) 0 cases")
+        for i, code in common.parse_bad(outs):
+            c = fcases[i]
+            rec = {"stream": "default_code_filter", "co_filename": c["raw"], "resolved": c["resolved"], "env": c["env"],
+                   "impl": c["impl"], "n_code_objects": c["n_code"], "kind": c["kind"], "note": c.get("note"),
+                   "primed_by": c.get("primed_by"),
+                   "lib_paths": frun["roots_str"], "verdict": code, "term": fterms[i]}
+            if code == 2:
+                rec["what"] = (f"default_code_filter answered {c['impl']} for {c['n_code']} code object(s) with co_filename="
+                               f"{c['raw']!r} (resolved {'/' + '/'.join((c['resolved'] or ['/'])[1:])!r}), MONKEYTYPE_TRACE_MODULES={c['env']!r}, "
+                               f"LIB_PATHS={frun['roots_str']}, library roots {['/' + '/'.join(r[1:]) for r in frun['roots']]}; the specification says {not c['impl'] if isinstance(c['impl'], bool) else 'a boolean'}"
+                               + (f" [{c['note']}]" if c.get("note") else ""))
+                # an answer that contradicts the path specification while another code object of the same file (or the
+                # same code object asked first) gets the right one: the lru_cache keyed on the code object
+                if c["kind"] == "env-history":
+                    rec["env_history"] = c["env_history"]
+                elif c["kind"] != "environment":
+                    rec["finding"] = KF_CACHE
+                failures.append(rec)
             else:
-                rec["finding"] = KF_CACHE
-            failures.append(rec)
-        else:
-            rec["what"] = f"model/harness disagreement (verdict {code}) on co_filename={c['raw']!r} env={c['env']!r}"
-            mismatches.append(rec)
-    for c in direct_fail:
-        failures.append({"stream": "default_code_filter", "co_filename": c["raw"], "env": c["env"], "impl": c["impl"],
-                         "what": f"default_code_filter({c['raw']!r}) with MONKEYTYPE_TRACE_MODULES={c['env']!r}: {c['impl']}"})
+                rec["what"] = f"model/harness disagreement (verdict {code}) on co_filename={c['raw']!r} env={c['env']!r}"
+                mismatches.append(rec)
+        for c in direct_fail:
+            failures.append({"stream": "default_code_filter", "co_filename": c["raw"], "env": c["env"], "impl": c["impl"],
+                             "what": f"default_code_filter({c['raw']!r}) with MONKEYTYPE_TRACE_MODULES={c['env']!r}: {c['impl']}"})
+
+        all_fcases += fcases
+        all_fterms += fterms
+    fcases, fterms = all_fcases, all_fterms
 
     # ---- CallTraceStoreLogger ----
     lcases = enum["logger"]
@@ -224,6 +265,7 @@ def run(ctx):
                            + f"; top-level calls {c['top']}"
                            + (f"; nested monkeytype.trace() sessions {c['sessions']} (store order: inner, outer)" if c.get("sessions") else "")
                            + (f"; the filter answers yes/no as {c['filter_answers']}" if c.get("filter_answers") else "")
+                           + (f"; {c['session']}" if c.get("session") else "")
                            + (f"; the traced block is left by {c['ending']}" if c.get("ending") else "")
                            + ("; the config's store queues the batch objects and writes them at the end" if c.get("deferred_store") else "")
                            + (f"; one file loaded twice (as __main__ and under its own name), calls in order {c['double_load']}"
@@ -247,7 +289,7 @@ def run(ctx):
             mismatches.append(rec)
 
     # self-contained inputs first (the driver reports the first few)
-    twins = [r for r in failures if (r.get("kind") == "twin" and r.get("primed_by")) or r.get("kind") == "env-history"]
+    twins = [r for r in failures if (r.get("kind") == "twin" and r.get("primed_by")) or r.get("kind") in ("env-history", "environment")]
     e2e_f = [r for r in failures if r.get("stream") == "end-to-end"]
     rest = [r for r in failures if r not in twins and r not in e2e_f]
     failures = twins[:2] + e2e_f[:2] + twins[2:] + e2e_f[2:] + rest
@@ -269,6 +311,8 @@ def run(ctx):
     dist["tracer_still_skips_co_name_trace_types"] = skips_name
     dist["e2e_nested_sessions"] = sum(1 for c in ecases if c.get("sessions"))
     dist["e2e_endings"] = {str(e): sum(1 for c in ecases if c.get("ending") == e) for e in (None, "raise", "exit0", "exit3")}
+    dist["e2e_two_session_cases"] = {k: sum(1 for c in ecases if c.get("two_sessions") == k) for k in ("config-appears", "db-path-changes")}
+    dist["e2e_dict_shape_rows_max_typed_dict_size_3"] = sum(1 for c in ecases for r in c["rows"] if r[1].startswith("shapes"))
     dist["e2e_deferred_store"] = sum(1 for c in ecases if c.get("deferred_store"))
     dist["e2e_double_load"] = {o: sum(1 for c in ecases if c.get("double_load") == o) for o in ("main-first", "module-first", "interleaved")}
     dist["e2e_filter_answer_styles"] = {st: sum(1 for c in ecases if c.get("filter_answers") == st) for st in filter_e2e.STYLES}
@@ -305,7 +349,10 @@ def run(ctx):
                 "functions sharing a bare name within one file, custom filters by co_qualname deciding differently for them and answering yes/no as bool / int / str / None / "
                 "re.Match / list; nested monkeytype.trace() sessions; traced blocks left normally, by sys.exit(0/3) or by an exception after the calls; "
                 "configs whose store queues the batch object and writes it when asked at the end; one file loaded twice, as __main__ "
-                "and under its own name, the same functions called in both copies in three orders) through `monkeytype run` / monkeytype.trace(config) "
+                "and under its own name, the same functions called in both copies in three orders; configs with max_typed_dict_size 3 and one function called with "
+                "several differently shaped dicts in one session; two sessions in one process with monkeytype_config becoming "
+                "importable in between, and with MT_DB_PATH changed between two sessions of one DefaultConfig object, one database per "
+                "session) through `monkeytype run` / monkeytype.trace(config) "
                 "with custom filters over random subsets, DefaultConfig and allow-lists into a SQLite store. Evaluations = real "
                 "filter calls + logger cases + programs; non-trivial = distinct (file, allow-list, answer) cases whose path has more "
                 "than two components + distinct logger cases + programs",
